@@ -13,7 +13,8 @@ simulated MPI and the mpio-emulating h5py layer):
      parser).
  (c) the REAL fullSimulation.main() with the physics classes replaced by element-wise integer maps
      (props/c18_driver.py): many (tEnd, saveStep, dt, stop point, restart, rank count) histories; files,
-     rows of phiDat.txt and checkpoint contents against the Driver model and against direct oracles.
+     rows of phiDat.txt and checkpoint contents against the Driver model and against direct oracles (every time
+     0..T exactly one row, also after restarts off the save steps).
  (d) thorough tier: split vs unsplit runs with the true physics at 8^4 points, final checkpoints bit for bit.
 """
 import glob
@@ -28,7 +29,6 @@ import implrun
 
 LAYOUTS = {'flux_surface': [0, 3, 1, 2], 'v_parallel': [0, 2, 1, 3], 'poloidal': [3, 2, 1, 0]}
 K_RP = 'constants:rp-not-roundtripped'
-K_RESTART_ROWS = 'fullSimulation:restart-unaligned-rows'
 
 
 def bstart(n, p, k):
@@ -782,8 +782,7 @@ def check_driver(chk, cases, results):
             want = sorted(str(k) for k in range(T + 1))
             rows_ok = keys == want
             if not rows_ok:
-                kk = 'fullSimulation:rows' if aligned else K_RESTART_ROWS
-                problems.append((kk, 'phiDat.txt has rows for times %r; expected one row per step 0..%d (saveStep %d, stop '
+                problems.append(('fullSimulation:rows', 'phiDat.txt has rows for times %r; expected one row per step 0..%d (saveStep %d, stop '
                                      'points %r)' % (keys, T, S, stops)))
             same_ranks = len(set([s[0] for s in c['segs']] + [c.get('unsplit_ranks')])) == 1
             if u and u['outcome'] == 'ok':
@@ -791,12 +790,8 @@ def check_driver(chk, cases, results):
                 ra = sorted(r['segs'][-1]['rows']) if same_ranks else keys
                 rb = sorted(u['rows']) if same_ranks else sorted(_row_key(x, dt) for x in u['rows'])
                 if ra != rb:
-                    if aligned:
-                        problems.append(('fullSimulation:restart-rows-aligned',
-                                         'rows of the restarted run differ from the uninterrupted run although every stop point '
-                                         'is a multiple of saveStep'))
-                    elif rows_ok:
-                        problems.append((K_RESTART_ROWS, 'rows of the restarted run differ from the uninterrupted run'))
+                    problems.append(('fullSimulation:restart-rows',
+                                     'rows of the restarted run differ (as a multiset) from those of the uninterrupted run'))
         for key, what in problems:
             chk.violation(key, what + ' | case %r' % (c,), dict(rep, oracle=key))
         if mismatch:
@@ -935,10 +930,6 @@ def run():
                'parts': {'checkpoint_cases': len(acases), 'constants_cases': len(bcases), 'driver_histories': len(dcases)}},
         uncovered=['HDF5 / file-system crash behaviour and real MPI-IO are outside the model',
                    'constants printer/parser (print_parse_roundtrip, parse_order_independent) is tested, not proved',
-                   'diagnostic rows: one row per time is proved for every uninterrupted run and for runs stopped at '
-                   'multiples of saveStep and restarted (run_rows, rows_each_time_once, restart_equiv_lines_aligned, '
-                   'restart_aligned_rows_each_time_once); for restarts from other stop times the property is REFUTED by the '
-                   'faithful model (restart_equiv_lines_refuted, ..._missing_row_refuted, ..._zero_row_refuted): known finding',
                    'true-physics split-vs-unsplit equality is sampled (thorough tier), the model takes step as a function'])
 
 
